@@ -422,7 +422,15 @@ def top_level_predicate(prog, chk):
             sides = [rv["a"], rv["b"]]
             fields = [op_place(sd) for sd in sides]
             consts = [op_const(sd) for sd in sides]
-            reads_depth = any(f is not None and f[1] and f[1][-1] == ".current_depth" for f in fields) or any(R.origin(b, sd, carriers={})[0] == "field" and R.origin(b, sd, carriers={})[1][1][-1] == ".current_depth" for sd in sides if op_place(sd) is not None)
+            from props.C17 import depth_counter_field
+
+            dfield = depth_counter_field(prog)
+            def _is_counter(sd):
+                pl_ = op_place(sd)
+                if pl_ is None:
+                    return False
+                return dfield is not None and R.self_path(b, sd) == dfield
+            reads_depth = any(_is_counter(sd) for sd in sides) or any(f is not None and f[1] and f[1][-1] == ".current_depth" for f in fields) or any(R.origin(b, sd, carriers={})[0] == "field" and R.origin(b, sd, carriers={})[1][1][-1] == ".current_depth" for sd in sides if op_place(sd) is not None)
             zero = any(k is not None and k.get("int") == 0 for k in consts)
             ok = ok or (reads_depth and zero)
     others = [c.path for (bb, t, c) in b.call_sites(lambda c: True)]
